@@ -118,7 +118,7 @@ def random_spec(rnd, with_marks=True, gen_expr=None):
     """A random schema spec: 3-7 node types, groups, inline leaves, required attributes,
     mark restrictions, 2-5 mark types with random exclusion.  Not yet filtered for
     well-foundedness (see random_schema)."""
-    from .gen import random_ast
+    from .gen import bounded_ast as random_ast
     from .refschema import ast_print
 
     nblock = rnd.randint(2, 5)
